@@ -16,7 +16,7 @@ Members(k) == Common \cup (CASE k.kty = "oct" -> {"k"}
                              [] k.kty = "RSA" -> {"n", "e"} \cup (IF k.priv = 1 THEN {"d", "p", "q", "dp", "dq", "qi"} ELSE {"d"})
                              [] k.kty = "EC" -> {"crv", "x", "y"} \cup (IF k.priv = 1 THEN {"d"} ELSE {"d"})
                              [] k.kty = "OKP" -> {"crv", "x", "d"})
-Classes == {"absent", "null", "number", "real", "bool", "array", "object", "empty", "notb64", "len1mod4", "short", "long", "unknownstr", "unknownlong", "foreign", "utf8", "utf8b"}
+Classes == {"absent", "null", "number", "real", "bool", "array", "object", "empty", "notb64", "len1mod4", "short", "long", "huge", "unknownstr", "unknownlong", "foreign", "utf8", "utf8b"}
 Def1(k) == { [k EXCEPT !.defect = <<<<m, c>>>>, !.bad = 1] : m \in Members(k), c \in Classes }
 Def2(k) == { [k EXCEPT !.defect = <<<<m1, c1>>, <<m2, c2>>>>, !.bad = 1] :
                m1 \in Members(k), m2 \in Members(k), c1 \in {"absent", "number", "empty", "notb64", "short", "null"}, c2 \in {"absent", "array", "empty", "long", "unknownstr"} }
